@@ -15,6 +15,7 @@ import Desync.Model.ReadSeeker
 import Desync.Model.Sparse
 import Desync.Model.HttpHandler
 import Desync.Model.LocalStore
+import Desync.Model.SftpStore
 import Desync.Model.Dedup
 import Desync.Model.Pool
 import Desync.Model.Chain
@@ -415,7 +416,8 @@ def filesStr (d : StoreDir) : String :=
 /-- `prune.run unc= keep=idhex,… files=dirhex/namehex;…` (files in walk order) -/
 def cmdPruneRun (a : Args) : String :=
   let keepIds := if (a.get "keep").isEmpty then [] else ((a.get "keep").splitOn ",").filterMap ofHex
-  match prune (a.bool "unc") (fun id => keepIds.contains id) (parseFiles (a.get "files")) with
+  let run := if a.get "backend" == "sftp" then sftpPrune else prune
+  match run (a.bool "unc") (fun id => keepIds.contains id) (parseFiles (a.get "files")) with
   | .ok d => "ok " ++ filesStr d
   | .failed d => "failed " ++ filesStr d
 
